@@ -396,7 +396,7 @@ func c18Wiring(c *Ctx) {
 	c.Check(good, rule, "main order", loadCall.Pos(), "config.Load and NewHandler (with their fatal checks) run before the server starts", "the server can start before the configuration checks ran")
 	// conf = config.Load(...)
 	okStore := false
-	eachInstr(mainFn, func(in ssa.Instruction) {
+	c.eachMainInstr(func(in ssa.Instruction) {
 		if s, ok := in.(*ssa.Store); ok && s.Val == loadCall.(ssa.Value) {
 			if g, ok := s.Addr.(*ssa.Global); ok && g.Name() == "conf" {
 				okStore = true
@@ -413,7 +413,7 @@ func c18Wiring(c *Ctx) {
 		"QuerySigningKey":   "Security.QueryTokenSigningKey",
 	}
 	seen := map[string]bool{}
-	eachInstr(mainFn, func(in ssa.Instruction) {
+	c.eachMainInstr(func(in ssa.Instruction) {
 		s, ok := in.(*ssa.Store)
 		if !ok {
 			return
@@ -435,7 +435,7 @@ func c18Wiring(c *Ctx) {
 			c.Bad(rule, "main security."+n, mainFn.Pos(), "security.%s is never set from the configuration", n)
 		}
 	}
-	for _, ci := range callsTo(mainFn, webPkgPath+".InitStore") {
+	for _, ci := range c.mainCallsTo(webPkgPath + ".InitStore") {
 		p0, ok0 := confFieldPath(arg(ci, 0))
 		p1, ok1 := confFieldPath(arg(ci, 1))
 		c.Check(ok0 && ok1 && p0 == "Server.SessionKey" && p1 == "Server.SessionEncryptionKey", rule, "main InitStore keys", ci.Pos(), "InitStore(conf.Server.SessionKey, conf.Server.SessionEncryptionKey, ...)", fmt.Sprintf("InitStore receives conf.%s and conf.%s", p0, p1))
